@@ -256,4 +256,251 @@ theorem joinWith_append (sep : Str) (a b : List Str) (ha : a ≠ []) (hb : b ≠
       simp only [List.cons_append, joinWith] at this ⊢
       rw [this]; simp
 
+/-! striptags / format helpers -/
+theorem splitWsAux_words (s cur : Str) (hcur : ∀ c ∈ cur, isPySpace c = false) :
+    ∀ w ∈ splitWsAux s cur, w ≠ [] ∧ ∀ c ∈ w, isPySpace c = false := by
+  induction s generalizing cur with
+  | nil =>
+    simp only [splitWsAux]
+    split
+    · simp
+    · rename_i h
+      intro w hw
+      rw [List.mem_singleton.mp hw]
+      refine ⟨?_, fun c hc => hcur c (List.mem_reverse.mp hc)⟩
+      intro h0; apply h; rw [List.reverse_eq_nil_iff.mp h0]; rfl
+  | cons c cs ih =>
+    simp only [splitWsAux]
+    split
+    · split
+      · exact ih [] (by simp)
+      · rename_i h
+        intro w hw
+        rcases List.mem_cons.mp hw with rfl | hw
+        · refine ⟨?_, fun c hc => hcur c (List.mem_reverse.mp hc)⟩
+          intro h0; apply h; rw [List.reverse_eq_nil_iff.mp h0]; rfl
+        · exact ih [] (by simp) w hw
+    · rename_i hc
+      apply ih (c :: cur)
+      intro d hd
+      rcases List.mem_cons.mp hd with rfl | hd
+      · simpa using hc
+      · exact hcur d hd
+
+theorem nonws_splitWsAux (s cur : Str) : ((splitWsAux s cur).map nonws).flatten = nonws (cur.reverse ++ s) := by
+  induction s generalizing cur with
+  | nil =>
+    simp only [splitWsAux]
+    split
+    · rename_i h; rw [List.isEmpty_iff.mp h]; rfl
+    · simp
+  | cons c cs ih =>
+    simp only [splitWsAux]
+    split
+    · rename_i hc
+      split
+      · rename_i h
+        rw [ih, List.isEmpty_iff.mp h, nonws_append, nonws_append, nonws_cons_space c cs hc]
+      · simp only [List.map_cons, List.flatten_cons]
+        rw [ih, nonws_append, nonws_append, nonws_cons_space c cs hc]; rfl
+    · rw [ih, List.reverse_cons, List.append_assoc]; rfl
+
+theorem splitWsAux_append_word (w rest cur : Str) (h : ∀ c ∈ w, isPySpace c = false) :
+    splitWsAux (w ++ rest) cur = splitWsAux rest (w.reverse ++ cur) := by
+  induction w generalizing cur with
+  | nil => rfl
+  | cons x xs ih =>
+    have hx := h x (List.mem_cons_self ..)
+    simp only [List.cons_append, splitWsAux, hx, Bool.false_eq_true, if_false]
+    rw [ih _ (fun c hc => h c (List.mem_cons_of_mem _ hc))]
+    simp
+
+theorem splitWs_join (ws : List Str) (h : ∀ w ∈ ws, w ≠ [] ∧ ∀ c ∈ w, isPySpace c = false) :
+    splitWs (joinWith [' '] ws) = ws := by
+  unfold splitWs
+  induction ws with
+  | nil => rfl
+  | cons w rest ih =>
+    obtain ⟨hne, hw⟩ := h w (List.mem_cons_self ..)
+    have hre : w.reverse.isEmpty = false := by
+      cases hr : w.reverse with
+      | nil => exact absurd (List.reverse_eq_nil_iff.mp hr) hne
+      | cons _ _ => rfl
+    cases rest with
+    | nil =>
+      simp only [joinWith]
+      have := splitWsAux_append_word w [] [] hw
+      simp only [List.append_nil] at this
+      rw [this]
+      simp [splitWsAux, hre]
+    | cons w2 r =>
+      simp only [joinWith, List.append_assoc]
+      rw [splitWsAux_append_word w _ _ hw]
+      have hsp : isPySpace ' ' = true := by decide
+      simp only [List.singleton_append, splitWsAux, hsp, if_true, List.append_nil, hre, Bool.false_eq_true, if_false,
+        List.reverse_reverse]
+      rw [ih (fun w' hw' => h w' (List.mem_cons_of_mem _ hw'))]
+
+
+theorem splitFirst_some (pat : Str) (s a b : Str) (h : splitFirst pat s = some (a, b)) : s = a ++ pat ++ b := by
+  induction s generalizing a with
+  | nil =>
+    simp only [splitFirst] at h
+    split at h
+    · rename_i hp; cases h; rw [List.isEmpty_iff.mp hp]; rfl
+    · cases h
+  | cons c cs ih =>
+    simp only [splitFirst] at h
+    split at h
+    · rename_i hp
+      cases h
+      have := List.prefix_iff_eq_append.mp (List.isPrefixOf_iff_prefix.mp hp)
+      simpa using this.symm
+    · obtain ⟨⟨a', b'⟩, hab, heq⟩ := Option.map_eq_some_iff.mp h
+      cases heq
+      rw [ih a' hab]; simp
+
+theorem splitFirst_char_some (c : Char) (s a b : Str) (h : splitFirst [c] s = some (a, b)) :
+    s = a ++ c :: b ∧ c ∉ a := by
+  induction s generalizing a with
+  | nil => simp [splitFirst] at h
+  | cons d ds ih =>
+    simp only [splitFirst] at h
+    split at h
+    · rename_i hp
+      cases h
+      have : c = d := by simpa [List.isPrefixOf] using hp
+      subst this; simp
+    · rename_i hp
+      have hne : c ≠ d := by intro e; apply hp; subst e; simp [List.isPrefixOf]
+      obtain ⟨⟨a', b'⟩, hab, heq⟩ := Option.map_eq_some_iff.mp h
+      cases heq
+      obtain ⟨h1, h2⟩ := ih a' hab
+      refine ⟨by rw [h1]; rfl, ?_⟩
+      intro hm
+      rcases List.mem_cons.mp hm with e | hm
+      · exact hne e
+      · exact h2 hm
+
+theorem splitFirst_char_eq (c : Char) (a b : Str) (h : c ∉ a) : splitFirst [c] (a ++ c :: b) = some (a, b) := by
+  induction a with
+  | nil => simp [splitFirst, List.isPrefixOf]
+  | cons d ds ih =>
+    have hne : c ≠ d := fun e => h (e ▸ List.mem_cons_self ..)
+    have hp : ([c].isPrefixOf (d :: (ds ++ c :: b))) = false := by simp [List.isPrefixOf, hne]
+    simp only [List.cons_append, splitFirst, hp, Bool.false_eq_true, if_false]
+    rw [ih (fun hm => h (List.mem_cons_of_mem _ hm))]; rfl
+
+theorem splitFirst_char_none (c : Char) (s : Str) (h : splitFirst [c] s = none) : c ∉ s := by
+  induction s with
+  | nil => simp
+  | cons d ds ih =>
+    simp only [splitFirst] at h
+    split at h
+    · cases h
+    · rename_i hp
+      have hne : c ≠ d := by intro e; apply hp; subst e; simp [List.isPrefixOf]
+      have hn : splitFirst [c] ds = none := by
+        cases hsd : splitFirst [c] ds with
+        | none => rfl
+        | some ab => rw [hsd] at h; cases h
+      intro hm
+      rcases List.mem_cons.mp hm with e | hm
+      · exact hne e
+      · exact ih hn hm
+
+/-- what one round removes: a middle part `m` that ends with `close`; the text before it is the text before the
+    first `opn` -/
+theorem stripStep_spec (opn close s s' : Str) (h : stripStep opn close s = some s') :
+    ∃ a m b, s = a ++ m ++ b ∧ s' = a ++ b ∧ close <:+ m ∧ (splitFirst opn s).map Prod.fst = some a := by
+  unfold stripStep at h
+  cases h1 : splitFirst opn s with
+  | none => rw [h1] at h; cases h
+  | some ax =>
+    obtain ⟨a, x⟩ := ax
+    rw [h1] at h
+    simp only at h
+    cases h2 : splitFirst close (s.drop a.length) with
+    | none => rw [h2] at h; cases h
+    | some mb =>
+      obtain ⟨m0, b⟩ := mb
+      rw [h2] at h
+      cases h
+      have e1 := splitFirst_some opn s a x h1
+      have e2 := splitFirst_some close _ m0 b h2
+      refine ⟨a, m0 ++ close, b, ?_, rfl, List.suffix_append _ _, rfl⟩
+      have : s = a ++ s.drop a.length := by
+        conv => lhs; rw [← List.take_append_drop a.length s]
+        congr 1
+        rw [e1, List.append_assoc, List.take_left']
+        rfl
+      rw [this, e2]; simp
+
+theorem stripStep_shorter (opn close s s' : Str) (hc : close ≠ []) (h : stripStep opn close s = some s') :
+    s'.length < s.length := by
+  obtain ⟨a, m, b, hs, hs', ⟨t, ht⟩, _⟩ := stripStep_spec opn close s s' h
+  have : 0 < close.length := List.length_pos_iff.mpr hc
+  rw [hs, hs', ← ht]; simp; omega
+
+theorem stripAll_unfold (opn close s : Str) (hc : close ≠ []) :
+    stripAll opn close s = match stripStep opn close s with
+      | none => s
+      | some s' => stripAll opn close s' := by
+  rw [stripAll]
+  cases h : stripStep opn close s with
+  | none => rfl
+  | some s' => simp only [if_pos (stripStep_shorter opn close s s' hc h)]
+
+theorem mem_joinWith (sep : Str) (ws : List Str) (c : Char) (h : c ∈ joinWith sep ws) : c ∈ sep ∨ ∃ w ∈ ws, c ∈ w := by
+  induction ws with
+  | nil => cases h
+  | cons w rest ih =>
+    cases rest with
+    | nil => exact Or.inr ⟨w, List.mem_cons_self .., h⟩
+    | cons w2 r =>
+      simp only [joinWith] at h
+      rcases List.mem_append.mp h with h | h
+      · rcases List.mem_append.mp h with h | h
+        · exact Or.inr ⟨w, List.mem_cons_self .., h⟩
+        · exact Or.inl h
+      · rcases ih h with h | ⟨w', hw', hc⟩
+        · exact Or.inl h
+        · exact Or.inr ⟨w', List.mem_cons_of_mem _ hw', hc⟩
+
+theorem head?_joinWith (sep w : Str) (rest : List Str) (h : w ≠ []) : (joinWith sep (w :: rest)).head? = w.head? := by
+  cases w with
+  | nil => exact absurd rfl h
+  | cons x xs => cases rest <;> simp [joinWith]
+
+theorem getLast?_joinWith (sep : Str) (ws : List Str) (h : ∀ w ∈ ws, w ≠ []) (hne : ws ≠ []) :
+    (joinWith sep ws).getLast? = (ws.getLast hne).getLast? := by
+  induction ws with
+  | nil => exact absurd rfl hne
+  | cons w rest ih =>
+    cases rest with
+    | nil => rfl
+    | cons w2 r =>
+      have hr := ih (fun w' hw' => h w' (List.mem_cons_of_mem _ hw')) (by simp)
+      have hjn : joinWith sep (w2 :: r) ≠ [] := by
+        intro h0
+        have h2 := h w2 (by simp)
+        cases r with
+        | nil => simp only [joinWith] at h0; exact h2 h0
+        | cons w3 r3 => simp only [joinWith] at h0; simp at h0; exact h2 h0.1
+      simp only [joinWith, List.getLast_cons_cons]
+      rw [List.getLast?_append]
+      cases hl : (joinWith sep (w2 :: r)).getLast? with
+      | none => exact absurd (List.getLast?_eq_none_iff.mp hl) hjn
+      | some x => rw [← hr, hl]; rfl
+
+theorem formatGo_lit (c : Char) (rest : Str) (args : List FmtArg) (hc : c ≠ '%') :
+    formatGo (c :: rest) args = (formatGo rest args).cons [c] := by
+  conv => lhs; unfold formatGo
+  split <;> first | rfl | (simp_all; done) | (exfalso; simp_all; done)
+
+theorem formatGo_oom (x : Char) (xs : Str) (args : List FmtArg) (h1 : x ≠ '%') (h2 : x ≠ 's') (h3 : x ≠ 'd') :
+    formatGo ('%' :: x :: xs) args = .oom := by
+  conv => lhs; unfold formatGo
+  split <;> first | rfl | (exfalso; simp_all; done) | (exfalso; grind)
+
 end JinjaV.C23
